@@ -54,6 +54,8 @@ fn main() {
                 "alias" | "tree" | "tree_sample" => weighted::replay(&ctx, case),
                 "affine" => affine::replay(&ctx, case),
                 "dirichlet" | "geom" => multi::replay(&ctx, case),
+                "schedule" => purity::replay(&ctx, case),
+                "serde" => serde_rt::replay(&ctx, case),
                 other => { eprintln!("no replay handler for case kind '{other}'"); false }
             };
             if !ok { std::process::exit(2); }
@@ -162,6 +164,14 @@ fn main() {
                 "C12" => {
                     multi::run_c12(&ctx);
                     ctx.finish("4 samplers x {f32,f64}: n points each; per point norm predicate (|norm-1| <= 8 eps circle/sphere, norm <= 1+4 eps disc/ball, no NaN); uniformity on product bins (circle 720 angle bins; disc r^2 x angle 32x32; sphere z x longitude 32x32; ball r^3 x z/r x longitude 16^3) and their 1-D marginals by per-bin KL-Chernoff and a global multinomial KL test, confirmed on 4n; plus every boundary-lattice word at stream positions 0..7 for the norm/NaN clause; evaluations = points + adversarial calls; non-trivial = bins with count >= 1000 + adversarial calls that consumed the word", &ASSUME_LAW, false)
+                }
+                "C14" => {
+                    purity::run(&ctx);
+                    ctx.finish("schedule = 1..6 distribution objects (any family incl. multi-output and weighted, parameters from the grids / E) and 1..199 steps over {sample on the shared RNG, sample on a private RNG, sample_iter().take(k), clone-and-sample, rebuild-from-parameters-and-sample}; oracle (metamorphic): every recorded call is replayed in isolation - fresh object, clone of the recorded RNG state, in a fresh thread and in reverse order - and must give the bit-identical result, word count and next 8 RNG words; clones and rebuilt values give identical samples; Debug / PartialEq of every object unchanged after the schedule; generated by proptest with shrinking; non-trivial = >= 2 objects interleaved on the shared RNG and >= 1 rejection-sampling family", &["hidden state is looked for through history-dependence of results, word counts and RNG state (thread-local state: fresh thread; process-global state: reverse replay order)"], false)
+                }
+                "C15" => {
+                    serde_rt::run(&ctx);
+                    ctx.finish("case = distribution value (every family x float type on the switch grids and random cells of E, weighted indices of lengths 1..300 for all 13 weight types); types implementing Serialize+DeserializeOwned are detected at compile time by autoref specialisation (capability table in evidence); two routes: serde_json Value (bit-exact floats) and text with float_roundtrip; oracle: round-tripped == original (PartialEq, else Debug), identical re-serialisation, 64 identical samples and word counts on cloned streams; non-trivial = value that round-trips (per internal-variant counters in classes)", &["feature set {std, serde}; self-describing format = JSON", "values with non-finite internal fields are outside E and skipped (counted)", "a text-route-only mismatch on an f32 value is classified as a format artefact (counted)"], false)
                 }
                 _ => {
                     eprintln!("unknown property {id}");
